@@ -3,6 +3,20 @@
 DOC_INDEX = ["[C]", "[Ring1]", "[Ring2]", "[Branch1]", "[=Branch1]", "[#Branch1]", "[Branch2]",
              "[=Branch2]", "[#Branch2]", "[O]", "[N]", "[=N]", "[=C]", "[#C]", "[S]", "[P]"]
 
+
+
+def presets_doc():
+    """the documented preset tables (README, docstring table of get_preset_constraints), transcribed independently"""
+    d = {"H": 1, "F": 1, "Cl": 1, "Br": 1, "I": 1, "B": 3, "B+1": 2, "B-1": 4, "O": 2, "O+1": 3, "O-1": 1,
+         "N": 3, "N+1": 4, "N-1": 2, "C": 4, "C+1": 3, "C-1": 3, "P": 5, "P+1": 4, "P-1": 6,
+         "S": 6, "S+1": 5, "S-1": 5, "?": 8}
+    o = dict(d)
+    o.update({"S": 2, "S+1": 3, "S-1": 1, "P": 3, "P+1": 4, "P-1": 2})
+    h = dict(d)
+    h.update({"Cl": 7, "Br": 7, "I": 7, "N": 5})
+    return {"default": d, "octet_rule": o, "hypervalent": h}
+
+
 # ---------------------------------------------------------------------------
 # O-MODERN: legacy (pre-v2) symbol -> documented modern equivalent (CHANGELOG v2.0.0),
 # written without reference to selfies.compatibility.
